@@ -118,6 +118,8 @@ func runC18(c *Ctx) {
 				abortScenario(c, rp0.Seed, rp0.Variant)
 			case "same-address":
 				sameAddress(c, rp0.Seed, rp0.Variant)
+			case "close-during-sync":
+				closeDuringSync(c, rp0.Seed, rp0.Variant)
 			case "close-while-connecting":
 				closeWhileConnecting(c, rp0.Seed, rp0.Variant)
 			case "rhp4-shutdown":
@@ -190,6 +192,10 @@ func runC18(c *Ctx) {
 		sameAddress(c, c.R.U64(), i)
 	}
 	res.Notes = append(res.Notes, fmt.Sprintf("aborts and same-address reconnects: %.1fs", time.Since(ta).Seconds()))
+
+	for i := 0; i < c.Scale(8, 60) && !giveUp("close-during-sync"); i++ {
+		closeDuringSync(c, c.R.U64(), i)
+	}
 
 	tc := time.Now()
 	for i := 0; i < c.Scale(32, 320) && !giveUp("close-while-connecting") && failedRuns["threadgroup"] == 0; i++ {
